@@ -18,13 +18,13 @@ from pycv.opalg import nc
 PROP = "C03"
 
 
-def native_atoms(Nspin=1, Nk=2, s=(6, 5, 4)):
+def native_atoms(Nspin=1, Nk=2, s=(6, 5, 4), atom="He"):
     import eminus
     from eminus import Atoms
 
     eminus.config.backend = "numpy"
     eminus.config.verbose = "critical"
-    a = Atoms("He", [[0.1, 0.2, 0.3]], ecut=3, a=[[4.0, 0.3, 0.1], [0.2, 4.5, 0.4], [0.5, 0.1, 5.0]],
+    a = Atoms(atom, [[0.1, 0.2, 0.3]], ecut=3, a=[[4.0, 0.3, 0.1], [0.2, 4.5, 0.4], [0.5, 0.1, 5.0]],
               unrestricted=(Nspin == 2))
     a.s = list(s)
     if Nk > 1:
